@@ -318,34 +318,48 @@ func (vc *VC) loopHead(fr *Frame, li *loopInfo, cur *State, ins []edgeState) *St
 		sort.Strings(names)
 		for _, n := range names {
 			srt := mods.heap[n]
-			if !mods.whole[n] && len(mods.roots[n]) > 0 && len(mods.roots[n]) <= 4 {
-				// every write in the loop goes through a few pointers/slices computed before the loop:
-				// only those objects (arrays) are havocked
+			if !mods.whole[n] && len(mods.roots[n]) > 0 && len(mods.roots[n]) <= 6 {
+				// every write in the loop goes through a few pointers/slices/maps computed before the
+				// loop, or through objects allocated inside the loop: pre-existing objects other than
+				// the former are unchanged
 				var refs []string
 				ok := true
 				for _, r := range mods.roots[n] {
 					var v Val
+					if al, isAlloc := r.(*ssa.Alloc); isAlloc && li.body[al.Block()] {
+						continue // object allocated inside the loop: fresh in every iteration
+					}
 					if al, isCell := r.(*ssa.Alloc); isCell {
 						// a local variable that the loop does not assign
 						c := fr.cellOf[al]
 						cv, live := st.cells[c]
-						if c == nil || !live || mods.allocs[al] || li.body[al.Block()] {
+						if c == nil || !live || mods.allocs[al] {
 							ok = false
 							break
 						}
 						v = cv
 					} else {
-						var has bool
-						v, has = fr.regs[r]
-						if _, isParam := r.(*ssa.Parameter); !has && !isParam {
+						if in, isInstr := r.(ssa.Instruction); isInstr && li.body[in.Block()] {
 							ok = false
 							break
 						}
+						var has bool
+						v, has = fr.regs[r]
 						if !has {
-							v = vc.value(fr, r)
+							switch r.(type) {
+							case *ssa.Parameter, *ssa.Global, *ssa.FreeVar:
+								v = vc.value(fr, r)
+							default:
+								ok = false
+							}
+						}
+						if !ok {
+							break
 						}
 					}
 					switch {
+					case v.K == KRef && v.T != nil && isMapType(v.T):
+						refs = append(refs, v.S)
 					case v.K == KSlice:
 						refs = append(refs, v.Sl[0])
 					case v.K == KPtr && v.L != nil && (v.L.Kind == locObj || v.L.Kind == locArr) && len(v.L.Path) == 0:
@@ -353,15 +367,20 @@ func (vc *VC) loopHead(fr *Frame, li *loopInfo, cur *State, ins []edgeState) *St
 					default:
 						ok = false
 					}
-				}
-				if ok && li.header.Dominates(li.header) && rootsOutsideLoop(mods.roots[n], li) {
-					h := vc.heapGet(st, n, srt)
-					_, args, _ := splitArgs(srt)
-					for _, ref := range refs {
-						h = store(h, ref, vc.sc.fresh("lhe", args[1]))
+					if !ok {
+						break
 					}
+				}
+				if ok {
+					h := vc.heapGet(st, n, srt)
+					nh := vc.sc.fresh("lh", srt)
+					conds := []string{sx("<", "r!q", st.next)}
+					for _, ref := range refs {
+						conds = append(conds, not(eq("r!q", ref)))
+					}
+					vc.sc.assert(fmt.Sprintf("(forall ((r!q Int)) (! (=> %s (= (select %s r!q) (select %s r!q))) :pattern ((select %s r!q))))", and(conds...), nh, h, nh))
 					vc.heapSorts[n] = srt
-					st.heap[n] = vc.sc.define("lh", srt, h)
+					st.heap[n] = nh
 					continue
 				}
 			}
@@ -450,6 +469,15 @@ func (vc *VC) localEnv(fr *Frame, st *State) *Env {
 	for k, v := range fr.env0 {
 		if _, shadow := vars[k]; !shadow {
 			vars[k] = v
+		}
+	}
+	// captured variables of a closure
+	for _, fv := range fr.fn.FreeVars {
+		if _, shadow := vars[fv.Name()]; shadow {
+			continue
+		}
+		if pv, ok := fr.regs[fv]; ok && pv.K == KPtr && pv.L != nil {
+			vars[fv.Name()] = vc.load(st, pv.L)
 		}
 	}
 	qn := 0
@@ -642,7 +670,14 @@ func (vc *VC) modsOfBlock(b *ssa.BasicBlock, ms *modSet, depth int, seen map[*ss
 			addHeapLeaves(ms, base, prefix, in.Val.Type(), elem)
 			ms.cur = nil
 		case *ssa.MapUpdate:
+			ms.cur = in.Map
+			if ld, isLoad := in.Map.(*ssa.UnOp); isLoad && ld.Op == token.MUL {
+				if al, ok := ld.X.(*ssa.Alloc); ok && !allocEscapes(al) {
+					ms.cur = al
+				}
+			}
 			vc.addMapMods(ms, in.Map.Type())
+			ms.cur = nil
 		case *ssa.Call:
 			vc.modsOfCall(&in.Call, ms, depth, seen)
 		case *ssa.Defer:
@@ -660,7 +695,7 @@ func (vc *VC) addMapMods(ms *modSet, mt types.Type) {
 		return
 	}
 	for n, s := range vc.mapHeaps(m) {
-		ms.heap[n] = s
+		ms.record(n, s)
 	}
 }
 
@@ -1562,4 +1597,9 @@ func rootsOutsideLoop(roots []ssa.Value, li *loopInfo) bool {
 		}
 	}
 	return true
+}
+
+func isMapType(t types.Type) bool {
+	_, ok := t.Underlying().(*types.Map)
+	return ok
 }
